@@ -549,6 +549,17 @@ func sameIface(a, b any) bool {
 // C15: constructor failures are reported faithfully.
 func (a *Analysis) ruleErrors() {
 	m := a.m
+	if op := a.buildOp; a.buildCancelled && op != nil && op.Done && op.Panic == nil && op.Err != nil {
+		ctorFailed := false
+		for _, inv := range a.h.invs {
+			if inv.Op == op.GID && inv.Fault != nil {
+				ctorFailed = true
+			}
+		}
+		if !ctorFailed && !errors.Is(op.Err, context.Canceled) && !m.V.Cycle && !m.V.Conflict && !m.V.Missing && !m.V.Dup {
+			a.add("C15", "C15.classes", "build-cancel/cause-lost", "the context given to BuildWithContext was cancelled inside a constructor and Build failed, but context.Canceled is not reachable from the error: %v", op.Err)
+		}
+	}
 	for _, inv := range a.h.invs {
 		f := inv.Fault
 		if f == nil || inv.Op < 0 {
@@ -625,6 +636,9 @@ func (a *Analysis) ruleErrors() {
 		}
 		if matched || onlyNil || anyNil {
 			continue
+		}
+		if op.Op.Kind == OpBuild && a.buildCancelled && errors.Is(op.Err, context.Canceled) {
+			continue // two failures happened in this Build; the reported one is the cancellation
 		}
 		if (hasClass(op.Classes, EScopeDisposed) || hasClass(op.Classes, EProviderDisposed)) && op.Handle >= 0 && a.closingStartedBefore(op.Handle, op.EndSeq) {
 			continue // the operation overlapped a Close and reports the disposed error
